@@ -1,5 +1,5 @@
 # replay of a bounded stand-in violation: re-run native/c01_backends.py
 import sys
-print("CZgate(-0.25,).H | (q[1], q[0]) of 2 on fock: ('quad', 0, 1.57) = [-0.145, 1.4339], the documented action gives [0.1702, 1.4178]")
+print("Sgate(0.3, 0.8) | q[0] of 2 after Del | q[0] (indices shifted by one) on fock: raised ValueError: axes don't match array")
 print('REPLAY-VIOLATION')
 sys.exit(1)
